@@ -208,6 +208,17 @@ func parseServiceConfig(js string, maxAttempts int) *serviceconfig.ParseResult {
 	}
 	sc.lbConfig = cfg
 
+	// Validate the retry throttling policy before the early return below, so
+	// that it is checked even when the config has no methodConfig section.
+	if sc.retryThrottling != nil {
+		if mt := sc.retryThrottling.MaxTokens; mt <= 0 || mt > 1000 {
+			return &serviceconfig.ParseResult{Err: fmt.Errorf("invalid retry throttling config: maxTokens (%v) out of range (0, 1000]", mt)}
+		}
+		if tr := sc.retryThrottling.TokenRatio; tr <= 0 {
+			return &serviceconfig.ParseResult{Err: fmt.Errorf("invalid retry throttling config: tokenRatio (%v) may not be negative", tr)}
+		}
+	}
+
 	if rsc.MethodConfig == nil {
 		return &serviceconfig.ParseResult{Config: &sc}
 	}
@@ -257,14 +268,6 @@ func parseServiceConfig(js string, maxAttempts int) *serviceconfig.ParseResult {
 		}
 	}
 
-	if sc.retryThrottling != nil {
-		if mt := sc.retryThrottling.MaxTokens; mt <= 0 || mt > 1000 {
-			return &serviceconfig.ParseResult{Err: fmt.Errorf("invalid retry throttling config: maxTokens (%v) out of range (0, 1000]", mt)}
-		}
-		if tr := sc.retryThrottling.TokenRatio; tr <= 0 {
-			return &serviceconfig.ParseResult{Err: fmt.Errorf("invalid retry throttling config: tokenRatio (%v) may not be negative", tr)}
-		}
-	}
 	return &serviceconfig.ParseResult{Config: &sc}
 }
 
